@@ -1,0 +1,158 @@
+//go:build verif
+
+// Contracts for the root package (DB, Batch, Merge, Iterator), read by /verif/govc (comment-only).
+package xixi_kv
+
+// ---------------------------------------------------------------------------------------------
+// Lock discipline
+// ---------------------------------------------------------------------------------------------
+//@ guarded_by xixi_kv.DB.mu : activeFile, olderFiles, bytesWrite, totalSize, reclaimSize, isMerging
+
+// ---------------------------------------------------------------------------------------------
+// Representation invariant of an open database
+// ---------------------------------------------------------------------------------------------
+// rotated files: registered under their own id, older than the active file, fully flushed, still open
+//@ pred olderIds(db) = forall id :: {db.olderFiles[id]} has(db.olderFiles, id) ==> db.olderFiles[id] != nil && db.olderFiles[id] != db.activeFile && db.olderFiles[id].ID == id && id < db.activeFile.ID
+//@ pred olderInv(db) = forall id :: {db.olderFiles[id]} has(db.olderFiles, id) ==> INV_df(db.olderFiles[id])
+//@ pred olderFlushed(db) = forall id :: {db.olderFiles[id]} has(db.olderFiles, id) ==> db.olderFiles[id].ReadWriter.durable == db.olderFiles[id].ReadWriter.size && db.olderFiles[id].kind == datafile.DataFileSuffix && !db.olderFiles[id].closed
+//@ pred olderSep(db) = forall id :: {db.olderFiles[id]} has(db.olderFiles, id) ==> dyn(db.olderFiles[id].ReadWriter) != dyn(db.activeFile.ReadWriter) && arr(db.olderFiles[id].headerBuf) != arr(db.logRecordHeader)
+//@ pred olderOK(db) = olderIds(db) && olderInv(db) && olderFlushed(db) && olderSep(db)
+//@ pred INV_db(db) = db != nil && db.index != nil && db.recordPool != nil && db.activeFile != nil && db.olderFiles != nil && INV_df(db.activeFile) && !db.activeFile.closed && db.activeFile.kind == datafile.DataFileSuffix && len(db.activeFile.bufferedWrites) == 0 && len(db.logRecordHeader) == 21 && arr(db.logRecordHeader) != arr(db.activeFile.headerBuf) && db.bytesWrite <= db.activeFile.ReadWriter.size && db.options.DataFileSize > 0 && (db.options.SyncStrategy == Threshold ==> db.options.BytesPerSync > 0) && olderOK(db)
+// space accounting: DiskSize - ReclaimableSize is the number of bytes occupied by the live records
+//@ pred ACC(db) = db.totalSize - db.reclaimSize == db.index.live && 0 <= db.reclaimSize && 0 <= db.index.live
+// every indexed position names a file the database holds open, at a valid in-block offset
+//@ pred posOK(db) = forall k :: {db.index.model[k]} db.index.model[k] != 0 ==> as("*datafile.DataPos", db.index.model[k]).Offset < 32768 && (as("*datafile.DataPos", db.index.model[k]).Fid == db.activeFile.ID || has(db.olderFiles, as("*datafile.DataPos", db.index.model[k]).Fid))
+// what a public method may assume on entry: invariant, accounting, no lock held by the caller, no counter near overflow
+//@ pred API(db) = INV_db(db) && ACC(db) && posOK(db) && db.mu != nil && !db.mu.heldW && !db.mu.heldR && db.activeFile.ID < 4294967295 && db.totalSize <= 4611686018427387904 && db.reclaimSize <= 4611686018427387904
+
+// sentinel errors of the engine itself (I/O layers never return these)
+//@ pred engineErr(e) = e == xixi_kv.ErrKeyIsEmpty || e == xixi_kv.ErrIndexUpdateFailed || e == xixi_kv.ErrKeyNotFound || e == xixi_kv.ErrDataFileNotFound || e == xixi_kv.ErrDataDirectoryCorrupted || e == xixi_kv.ErrBatchCommitted || e == xixi_kv.ErrDatabaseIsUsing || e == xixi_kv.ErrMergeIsProgress
+
+//@ pool xixi_kv.DB.recordPool *datafile.LogRecord
+//@ poolinv [clean-record] x != nil && x.Key == nil && len(x.Value) == 0 && x.Type == 0 && x.BatchID == 0
+
+// ---------------------------------------------------------------------------------------------
+// Append path
+// ---------------------------------------------------------------------------------------------
+
+//@ func (*xixi_kv.DB).setActiveFile
+//@   props C01 C13 C17
+//@   requires [locked] db.mu == nil || db.mu.heldW
+//@   requires [id-room] db.activeFile == nil || db.activeFile.ID < 4294967295
+//@   ensures [ok]   result == nil ==> db.activeFile != nil && fresh(db.activeFile) && INV_df(db.activeFile) && !db.activeFile.closed && db.activeFile.kind == datafile.DataFileSuffix && len(db.activeFile.bufferedWrites) == 0 && db.activeFile.ReadWriter.durable == db.activeFile.ReadWriter.size && db.activeFile.ReadWriter.writes == 0 && fresh(db.activeFile.ReadWriter) && fresh(db.activeFile.headerBuf)
+//@   ensures [id]   result == nil ==> db.activeFile.ID == (old(db.activeFile) == nil ? 0 : old(db.activeFile.ID) + 1)
+//@   ensures [err]  result != nil ==> db.activeFile == old(db.activeFile)
+//@   ensures [foreign-errors] !engineErr(result)
+//@   modifies db.activeFile
+
+//@ func (*xixi_kv.DB).sync
+//@   props C01 C13 C17 C03
+//@   requires [locked] db.mu == nil || db.mu.heldW
+//@   requires [inv]    INV_db(db) && db.activeFile.ID < 4294967295
+//@   ensures [rotated] result == nil ==> INV_db(db) && fresh(db.activeFile) && db.activeFile.ID == old(db.activeFile.ID) + 1 && db.activeFile.ReadWriter.writes == 0 && fresh(db.activeFile.ReadWriter) && fresh(db.activeFile.headerBuf) && has(db.olderFiles, old(db.activeFile.ID)) && db.olderFiles[old(db.activeFile.ID)] == old(db.activeFile)
+//@   ensures [rotate-flushed] result == nil ==> old(db.activeFile).ReadWriter.durable == old(db.activeFile).ReadWriter.size
+//@   ensures [older-kept] forall id :: {db.olderFiles[id]} id != old(db.activeFile.ID) ==> has(db.olderFiles, id) == old(has(db.olderFiles, id)) && db.olderFiles[id] == old(db.olderFiles[id])
+//@   ensures [counter] result == nil ==> db.bytesWrite == 0
+//@   ensures [err-keeps-active] result != nil ==> db.activeFile == old(db.activeFile)
+//@   ensures [foreign-errors] !engineErr(result)
+//@   modifies db.activeFile, db.olderFiles[*], db.bytesWrite, db.activeFile.ReadWriter.durable
+
+//@ func (*xixi_kv.DB).appendLogRecord
+//@   props C01 C13 C17 C03 C08
+//@   requires [locked] db.mu == nil || db.mu.heldW
+//@   requires [inv]    INV_db(db) && db.activeFile.ID < 4294967295 && db.totalSize <= 4611686018427387904
+//@   requires [rec]    logRecord != nil && len(logRecord.Key) + len(logRecord.Value) <= 134217728
+//@   ensures [inv]     result1 == nil ==> INV_db(db)
+//@   ensures [pos]     result1 == nil ==> result0 != nil && fresh(result0) && result0.Fid == db.activeFile.ID && result0.Offset < 32768
+//@   ensures [total]   result1 == nil ==> db.totalSize == old(db.totalSize) + result0.Size
+//@   ensures [err]     result1 != nil ==> result0 == nil
+//@   ensures [always]  result1 == nil && db.options.SyncStrategy == Always ==> db.activeFile.ReadWriter.durable == db.activeFile.ReadWriter.size
+//@   ensures [threshold] result1 == nil && db.options.SyncStrategy == Threshold ==> db.bytesWrite < db.options.BytesPerSync
+//@   ensures [counter-exact] result1 == nil ==> (db.bytesWrite == 0 && db.activeFile.ReadWriter.durable == db.activeFile.ReadWriter.size) || db.bytesWrite == (db.activeFile == old(db.activeFile) ? old(db.bytesWrite) : 0) + result0.Size
+//@   ensures [rotate-flushed] db.activeFile != old(db.activeFile) ==> old(db.activeFile).ReadWriter.durable == old(db.activeFile).ReadWriter.size && has(db.olderFiles, old(db.activeFile.ID)) && db.olderFiles[old(db.activeFile.ID)] == old(db.activeFile) && db.activeFile.ID == old(db.activeFile.ID) + 1
+//@   ensures [limit]   result1 == nil ==> db.activeFile.ReadWriter.size <= db.options.DataFileSize || db.activeFile != old(db.activeFile)
+//@   ensures [older-kept] forall id :: {db.olderFiles[id]} old(has(db.olderFiles, id)) ==> has(db.olderFiles, id) && db.olderFiles[id] == old(db.olderFiles[id])
+//@   ensures [foreign-errors] !engineErr(result1)
+//@   ensures [one-write] result1 == nil ==> db.activeFile.ReadWriter.writes == (db.activeFile == old(db.activeFile) ? old(db.activeFile.ReadWriter.writes) : 0) + 1
+//@   modifies db.activeFile, db.olderFiles[*], db.totalSize, db.bytesWrite, db.logRecordHeader[*], db.activeFile.lastBlockID, db.activeFile.lastBlockSize, db.activeFile.headerBuf[*], db.activeFile.ReadWriter.size, db.activeFile.ReadWriter.data, db.activeFile.ReadWriter.writes, db.activeFile.ReadWriter.durable
+
+//@ func (*xixi_kv.DB).putRecordToPool
+//@   inline
+
+// ---------------------------------------------------------------------------------------------
+// Public API
+// ---------------------------------------------------------------------------------------------
+
+//@ func (*xixi_kv.DB).Put
+//@   props C01 C08 C09 C13 C15 C17
+//@   requires [api]   API(db)
+//@   requires [sizes] len(key) + len(value) <= 134217728
+//@   requires [caller-buffers] arr(key) != arr(db.logRecordHeader) && arr(key) != arr(db.activeFile.headerBuf)
+//@   ensures [unlocked]  !db.mu.heldW && !db.mu.heldR
+//@   ensures [empty-key] len(key) == 0 ==> result == ErrKeyIsEmpty && db.index.model == old(db.index.model)
+//@   ensures [inv]       result == nil ==> INV_db(db) && ACC(db) && posOK(db)
+//@   ensures [acked-visible] result == nil ==> db.index.model[old(keyid(key))] != 0 && as("*datafile.DataPos", db.index.model[old(keyid(key))]).Fid == db.activeFile.ID && (forall k :: {db.index.model[k]} k != old(keyid(key)) ==> db.index.model[k] == old(db.index.model)[k])
+//@   ensures [err-frame] result != nil ==> db.index.model == old(db.index.model)
+//@   ensures [always]    result == nil && db.options.SyncStrategy == Always ==> db.activeFile.ReadWriter.durable == db.activeFile.ReadWriter.size
+//@   ensures [threshold] result == nil && db.options.SyncStrategy == Threshold ==> db.bytesWrite < db.options.BytesPerSync
+//@   ensures [count]     result == nil ==> db.index.count == old(db.index.count) + (old(db.index.model)[old(keyid(key))] == 0 ? 1 : 0)
+//@   at (*xixi_kv.DB).appendLogRecord assert [one-section] db.mu.heldW && db.mu.sections == old(db.mu.sections) + 1
+//@   at (*index.ShardedIndex).Put assert [one-section] db.mu.heldW && db.mu.sections == old(db.mu.sections) + 1
+//@   modifies db.activeFile, db.olderFiles[*], db.totalSize, db.bytesWrite, db.reclaimSize, db.logRecordHeader[*], db.activeFile.lastBlockID, db.activeFile.lastBlockSize, db.activeFile.headerBuf[*], db.activeFile.ReadWriter.size, db.activeFile.ReadWriter.data, db.activeFile.ReadWriter.writes, db.activeFile.ReadWriter.durable, db.index.model, db.index.count, db.index.live, db.mu.heldW, db.mu.sections
+
+//@ func (*xixi_kv.DB).Delete
+//@   props C01 C08 C09 C13 C15 C17
+//@   requires [api]   API(db)
+//@   requires [sizes] len(key) <= 134217728
+//@   requires [caller-buffers] arr(key) != arr(db.logRecordHeader) && arr(key) != arr(db.activeFile.headerBuf)
+//@   ensures [unlocked]  !db.mu.heldW && !db.mu.heldR
+//@   ensures [empty-key] len(key) == 0 ==> result == ErrKeyIsEmpty && db.index.model == old(db.index.model)
+//@   ensures [inv]       result == nil ==> INV_db(db) && ACC(db) && posOK(db)
+//@   ensures [deleted]   result == nil ==> db.index.model[old(keyid(key))] == 0 && (forall k :: {db.index.model[k]} k != old(keyid(key)) ==> db.index.model[k] == old(db.index.model)[k])
+//@   ensures [absent-is-noop] len(key) > 0 && old(db.index.model)[old(keyid(key))] == 0 ==> result == nil && db.activeFile == old(db.activeFile) && db.activeFile.ReadWriter.size == old(db.activeFile.ReadWriter.size)
+//@   ensures [no-internal-error] result != ErrIndexUpdateFailed
+//@   ensures [err-frame] result != nil ==> db.index.model == old(db.index.model)
+//@   ensures [always]    result == nil && db.options.SyncStrategy == Always ==> db.activeFile.ReadWriter.durable == db.activeFile.ReadWriter.size || old(db.index.model)[old(keyid(key))] == 0
+//@   at (*index.ShardedIndex).Get assert [check-in-section] db.mu.heldW && db.mu.sections == old(db.mu.sections) + 1
+//@   at (*xixi_kv.DB).appendLogRecord assert [one-section] db.mu.heldW && db.mu.sections == old(db.mu.sections) + 1
+//@   at (*index.ShardedIndex).Delete assert [one-section] db.mu.heldW && db.mu.sections == old(db.mu.sections) + 1
+//@   modifies db.activeFile, db.olderFiles[*], db.totalSize, db.bytesWrite, db.reclaimSize, db.logRecordHeader[*], db.activeFile.lastBlockID, db.activeFile.lastBlockSize, db.activeFile.headerBuf[*], db.activeFile.ReadWriter.size, db.activeFile.ReadWriter.data, db.activeFile.ReadWriter.writes, db.activeFile.ReadWriter.durable, db.index.model, db.index.count, db.index.live, db.mu.heldW, db.mu.sections
+
+//@ func (*xixi_kv.DB).getValueByPosition
+//@   props C01 C08 C09 C12
+//@   requires [api]   API(db)
+//@   requires [pos]   logRecordPos != nil && logRecordPos.Offset < 32768
+//@   ensures [unlocked] !db.mu.heldW && !db.mu.heldR
+//@   ensures [err-no-value] result1 != nil ==> result0 == nil
+//@   ensures [resolvable] (logRecordPos.Fid == db.activeFile.ID || has(db.olderFiles, logRecordPos.Fid)) ==> result1 != ErrDataFileNotFound
+//@   ensures [private-copy] len(result0) > 0 ==> fresh(result0)
+//@   ensures [error-kinds] result1 == ErrDataFileNotFound || !engineErr(result1)
+//@   at (*datafile.DataFile).ReadRecordValue assert [right-file] arg0.ID == logRecordPos.Fid && arg1 == logRecordPos
+//@   modifies db.mu.heldR
+
+//@ func (*xixi_kv.DB).Get
+//@   props C01 C08 C09 C12 C15
+//@   requires [api]   API(db)
+//@   ensures [unlocked] !db.mu.heldW && !db.mu.heldR
+//@   ensures [empty-key] len(key) == 0 ==> result1 == ErrKeyIsEmpty
+//@   ensures [absent]   len(key) > 0 && db.index.model[keyid(key)] == 0 ==> result1 == ErrKeyNotFound && result0 == nil
+//@   ensures [present]  len(key) > 0 && db.index.model[keyid(key)] != 0 ==> result1 != ErrKeyNotFound && result1 != ErrDataFileNotFound
+//@   ensures [err-no-value] result1 != nil ==> result0 == nil
+//@   ensures [private-copy] len(result0) > 0 ==> fresh(result0)
+//@   modifies db.mu.heldR
+
+//@ func (*xixi_kv.DB).Sync
+//@   props C13 C09
+//@   requires [api]   API(db)
+//@   ensures [unlocked] !db.mu.heldW && !db.mu.heldR
+//@   ensures [flushed] result == nil ==> db.activeFile.ReadWriter.durable == db.activeFile.ReadWriter.size
+//@   ensures [inv]     INV_db(db)
+//@   modifies db.activeFile.ReadWriter.durable, db.mu.heldW, db.mu.sections
+
+//@ func (*xixi_kv.DB).Stat
+//@   props C17 C09
+//@   requires [api]   API(db)
+//@   ensures [unlocked] !db.mu.heldW && !db.mu.heldR
+//@   ensures [exact]  result != nil && result.KeyNum == db.index.count && result.DataFileNum == len(db.olderFiles) + 1 && result.ReclaimableSize == db.reclaimSize && result.DiskSize == db.totalSize
+//@   ensures [ordered] 0 <= result.ReclaimableSize && result.ReclaimableSize <= result.DiskSize && result.DiskSize - result.ReclaimableSize == db.index.live
+//@   modifies db.mu.heldR
